@@ -127,6 +127,15 @@ fn payload(kind: &str) -> (Option<String>, Option<String>) {
 
 /// Render the abstract JSON document as text. `r` rotates through the malformed variants.
 fn render(j: &Value, r: usize) -> String {
+    render_ver(j, r, None)
+}
+
+/// Integer literals that no supported version equals: beyond u32 (2^32 + 1 and 2^33 + 1 are 1 modulo
+/// 2^32, 2^64 + 1 is 1 modulo 2^64), the first unsupported ones, and the largest u32.
+const UNSUPPORTED_VERSIONS: [&str; 7] = ["4294967297", "8589934593", "18446744073709551617", "4294967296", "4294967295", "2", "0"];
+
+/// As `render`, with the malformed version replaced by the given literal.
+fn render_ver(j: &Value, r: usize, version: Option<&str>) -> String {
     let mut fields: Vec<String> = Vec::new();
     let thr = j["thr"].as_i64().unwrap();
     match thr {
@@ -147,7 +156,7 @@ fn render(j: &Value, r: usize) -> String {
     }
     match j["ver"].as_i64().unwrap() {
         -1 => {}
-        -2 => fields.push(format!("\"version\": {}", ["\"1\"", "1.0", "-1", "4294967296", "null"][r % 5])),
+        -2 => fields.push(format!("\"version\": {}", version.unwrap_or(["\"1\"", "1.0", "-1", "4294967296", "null"][r % 5]))),
         v => fields.push(format!("\"version\": {v}")),
     }
     match j["vis"].as_str().unwrap() {
@@ -293,6 +302,7 @@ fn main() {
             let storage = Storage::open(tmp.path().join("storage"), radicle::git::UserInfo { alias: Alias::new("verif"), key: *signer.public_key() }).expect("storage");
             let (mut evals, mut accepted_n, mut rejected_n, mut bad, mut drift, mut logged) = (0u64, 0u64, 0u64, 0u64, 0u64, 0);
             let (mut roundtrips, mut encode_refused, mut canon_checked, mut inits) = (0u64, 0u64, 0u64, 0u64);
+            let (mut wide_versions, mut wide_effective) = (0u64, 0u64);
             for (ci, c) in cases.iter().enumerate() {
                 let j = &c["json"];
                 let text = render(j, ci);
@@ -302,6 +312,23 @@ fn main() {
                 let mut breaches: Vec<String> = Vec::new();
                 let mut drifts: Vec<String> = Vec::new();
                 let mut actual = json!({});
+                // a document whose version field is an integer that is not a supported version is never
+                // accepted, however wide the integer is
+                if j["ver"].as_i64() == Some(-2) {
+                    // vacuity guard: count the cases in which the version is the only possible objection
+                    if matches!(guard(|| run_doc(&scratch, &render_ver(j, ci, Some("1")), &[])), Ok(v) if v.accepted) {
+                        wide_effective += 1;
+                    }
+                    for lit in UNSUPPORTED_VERSIONS {
+                        let t = render_ver(j, ci, Some(lit));
+                        wide_versions += 1;
+                        match guard(|| run_doc(&scratch, &t, &[])) {
+                            Err(p) => breaches.push(format!("panic on version {lit}: {p}")),
+                            Ok(v) if v.accepted || v.split.is_some() => breaches.push(format!("a document with the unsupported version {lit} was accepted ({})", v.split.unwrap_or("by every entry point".into()))),
+                            Ok(_) => {}
+                        }
+                    }
+                }
                 match g {
                     Err(p) => breaches.push(format!("panic: {p}")),
                     Ok(v) => {
@@ -399,7 +426,7 @@ fn main() {
                 }
             }
             o.emit(&json!({"summary": true, "evaluations": evals, "accepted": accepted_n, "rejected": rejected_n, "violations": bad, "drift": drift,
-                "roundtrips": roundtrips, "encode_refused": encode_refused, "canonical_text_checked": canon_checked, "repositories_initialised": inits}));
+                "unsupported_version_texts": wide_versions, "unsupported_version_only_objection": wide_effective, "roundtrips": roundtrips, "encode_refused": encode_refused, "canonical_text_checked": canon_checked, "repositories_initialised": inits}));
         }
         "record" => {
             let n = args.num("--n", 2000) as usize;
